@@ -231,6 +231,8 @@ def harnesses(tier):
         "H6 write||write": (["write-canon|v3:salt", "write|v3:single"], "dfa-cold"),
         "H8 read v3||read v3": (["read|v3:star", "read|v3:split"], "dfa-cold"),
         "H9 read v2||canon": (["read|v2:isolated", "canon|v3:salt"], "dfa-cold"),
+        # fresh module-level state of the whole library before every execution (first use of lazily built tables)
+        "H0 cold modules: read||read": (["read|v3:single", "read|v3:many-elements"], "cold-modules"),
     }
     if tier == "thorough":
         H["H3 failing||valid on warmed cache"] = (["parse|Xy/", "parse|ClH/(1-2)"], "dfa-warm")
@@ -277,14 +279,36 @@ def _sched_job(job):
     bodies_named, init = harnesses(tier)[hname]
     items = dict(W.items())
     out = []
+    deadlocked = False
     for pl in plists:
-        _init_state(init)
+        if deadlocked:
+            break
+        if init == "cold-modules":
+            _reimport_tucan()
+            _SCHED.uninstrument()
+            _SCHED.instrument(_sched_codes())
+            bodies_named, _ = harnesses(tier)[hname]
+            items = dict(W.items())
+            modstate.reset("keep")
+        else:
+            _init_state(init)
+        settings_before = _interpreter_settings()
         bodies = [(lambda fn=fn: _digest(W.run_item(fn))) for _, fn in bodies_named]
         try:
-            r = _SCHED.run(bodies, first=first, preemptions=pl, record_trace=True)
+            r = _SCHED.run(bodies, first=first, preemptions=pl, record_trace=True, timeout=90.0)
         except S.Divergence as ex:
+            if "timeout" in str(ex) or "never scheduled" in str(ex) or "starved" in str(ex):
+                # all managed threads are blocked outside scheduling points (normal executions take milliseconds):
+                # the callers deadlocked. Threads stay stuck, so this worker stops exploring the harness.
+                deadlocked = True
+                out.append((pl, 0, [f"execution did not terminate within 90 s (deadlock between the concurrent callers): {ex}"],
+                            (), None, "deadlock"))
+                continue
             raise RuntimeError(f"scheduler error in {hname} first={first} preemptions={pl}: {ex}")
         bad = []
+        if _interpreter_settings() != settings_before:
+            bad.append(f"process-wide interpreter settings changed by the execution: {settings_before} -> {_interpreter_settings()}")
+            sys.setrecursionlimit(settings_before[0])
         for i, (name, _) in enumerate(bodies_named):
             res = r["results"][i]
             if res[0] != "ok" or res[1] != refs[name]:
@@ -302,6 +326,28 @@ def _sched_job(job):
             ext = [(s, t) for s in range(last + 1, r["steps"]) for t in r["enabled_at"][s]]
         out.append((pl, r["steps"], bad, paths, ext, modstate.fingerprint()))
     return out
+
+
+def _interpreter_settings():
+    """Process-wide settings an operation may touch temporarily but must leave as it found them."""
+    import decimal
+    import locale
+
+    return (sys.getrecursionlimit(), sys.getswitchinterval(), decimal.getcontext().prec, locale.setlocale(locale.LC_NUMERIC, None),
+            sys.get_int_max_str_digits())
+
+
+def _reimport_tucan():
+    """Fresh module-level state of the library: drop every tucan module and import the package again (in the main
+    thread, so that lazily initialised tables are built by whichever managed thread uses them first)."""
+    import importlib
+
+    keep = ("tucan.parser.tucanParser", "tucan.parser.tucanLexer", "tucan.parser.tucanListener")  # generated; their only
+    # module state (ATN memos, DFA caches) is reset by modstate; deserialising the ATN again costs 0.4 s
+    for k in [k for k in sys.modules if (k == "tucan" or k.startswith("tucan.")) and k not in keep]:
+        del sys.modules[k]
+    for m in ("tucan", "tucan.io", "tucan.canonicalization", "tucan.serialization", "tucan.graph_utils", "tucan.parser.parser"):
+        importlib.import_module(m)
 
 
 _BOUND = {}
@@ -356,12 +402,15 @@ def schedule_engine(rep, tier):
                     stats["final_states"].add(fp)
                     stats["by_preemptions"][len(pl)] = stats["by_preemptions"].get(len(pl), 0) + 1
                     if bad:
+                        stats["violations"] = stats.get("violations", 0) + 1
                         rep.violation(f"C14|schedule|{hname.split()[0]}", {
                             "kind": "c14-schedule", "harness": hname, "first": job[2], "preemptions": pl, "tier": tier, "n": len(pl),
                             "summary": f"{hname}: first={job[2]} preemptions={pl}: {'; '.join(bad)}"})
                     if ext and k < bound:
                         for e in ext:
                             nxt.append((job[2], pl + [e]))
+            if stats.get("violations"):
+                nxt = []  # the counterexample with the fewest preemptions is found; do not explore deeper
             if len(nxt) > cap:
                 capped = True
                 nxt = nxt[:cap]
